@@ -1467,9 +1467,17 @@ class Real(base.SimpleAsn1Type):
         if self._value in self._inf:
             return self._value
         else:
-            return float(
-                self._value[0] * pow(self._value[1], self._value[2])
-            )
+            mantissa, base, exponent = self._value
+
+            power = pow(base, exponent)
+
+            if (exponent < 0 and power < sys.float_info.min and
+                    isinstance(mantissa, intTypes)):
+                # the power alone is below the smallest normal float
+                # while the value need not be: divide exactly
+                return mantissa / pow(base, -exponent)
+
+            return float(mantissa * power)
 
     def __abs__(self):
         return self.clone(abs(float(self)))
